@@ -3,6 +3,7 @@
 
 use crate::exec::*;
 use crate::hist::*;
+use crate::oracle_est;
 use crate::oracle_p;
 use crate::oracle_ttl;
 use crate::plan::*;
@@ -18,9 +19,14 @@ pub struct OracleOut {
 pub fn check_all(h: &Hist, out: &Outcome, props: &[&str]) -> OracleOut {
     let mut o = OracleOut { violations: vec![], probes: BTreeMap::new(), nontrivial: false };
     engine_rules(h, out, &mut o);
-    if props.iter().any(|p| ["C03", "C04", "C05"].contains(p)) {
-        let t = oracle_ttl::check_ttl(h, props);
-        o.violations.extend(t.violations);
+    if props.iter().any(|p| ["C03", "C04", "C05", "C09"].contains(p)) {
+        let mut want: Vec<&str> = props.to_vec();
+        if props.contains(&"C09") {
+            // C09 re-labels value/TTL/presence violations on conditionally written keys
+            want.extend(["C03", "C04"]);
+        }
+        let t = oracle_ttl::check_ttl(h, &want);
+        o.violations.extend(t.violations.into_iter().filter(|v| props.contains(&v.prop.as_str())));
         o.nontrivial |= t.nontrivial;
         for (k, v) in t.probes {
             *o.probes.entry(k.to_string()).or_default() += v;
@@ -45,6 +51,11 @@ pub fn check_all(h: &Hist, out: &Outcome, props: &[&str]) -> OracleOut {
     run_p("C11", &|| oracle_p::check_c11(h));
     run_p("C12", &|| oracle_p::check_c12(h, &out.tasks));
     run_p("C17", &|| oracle_p::check_c17(h));
+    run_p("C13", &|| oracle_est::check_c13_c15(h, true, false));
+    run_p("C15", &|| oracle_est::check_c13_c15(h, false, true));
+    run_p("C16", &|| oracle_est::check_c16(h));
+    run_p("C20", &|| oracle_est::check_c20(h));
+    run_p("C18", &|| crate::oracle_c18::check_c18(h));
     // de-duplicate identical (prop, rule, fingerprint): keep the earliest
     o.violations.sort_by_key(|v| v.seq);
     let mut seen = std::collections::BTreeSet::new();
